@@ -101,9 +101,9 @@ PROPS = {
             # PENDING-MIRROR-UPDATE {"cmd": "core-mp", "mode": "core", "cases": {"quick": 800, "thorough": 30000}, "shards": {"quick": 8, "thorough": 16}},
             # PENDING-MIRROR-UPDATE {"cmd": "core-mp-corpus", "mode": "core", "cases": {"quick": 1, "thorough": 1}, "corpus": True},
         ],
-        "rule": "same adversarial stream as C08, every call under catch_unwind; the model must predict ok / which error / panic for every line. non-trivial = mutated or malformed object.",
+        "rule": "same adversarial stream as C08 plus the malformed multi-proof stream of C07 and the corpus of the six former verify_range panic inputs (harness/corpus/core-mp-verify-panics.txt, expected verdicts InvalidDepth / TooFewSiblings / PathPrefixOfAnother), every call under catch_unwind; the model must predict ok / which error / panic for every line; any panic of the real verifier is an oracle failure `C18 PANIC in ...`. non-trivial = mutated or malformed object.",
         "trusted_base": HASH_TB,
-        "assumptions": [],
+        "assumptions": ["verify_multi_proof_update: only the sites listed in T18_5_partial are proved unreachable; the CommonSiblings asserts / unwrap are held by the core-mp differential (no panic observed, model agreement on every line)"],
     },
     # ---------------- API-level properties: history engine (harness/src/db.rs) vs Lean `api` model ----------------
     "C01": {
